@@ -917,7 +917,7 @@ class Relabel(Family):
     (`C18_relabel_cpals_run`) and the reported `dimorder` / `optdims` against the model op `c18_relabel_setup`."""
     name = "relabel"
     theorems = ("C18_relabel_step", "C18_relabel_sweep", "C18_relabel_als_query", "C18_relabel_mttkrp_spec",
-                "C18_relabel_mttkrp_law", "C18_relabel_hosvd", "C18_relabel_cpals_mode_update", "C18_relabel_cpals_pass",
+                "C18_relabel_mttkrp_law", "C18_relabel_hosvd", "C18_relabel_tucker_run", "C18_relabel_cpals_mode_update", "C18_relabel_cpals_pass",
                 "C18_relabel_cpals_sweeps", "C18_relabel_cpals_run")
 
     def gen(self, rng, tier):
@@ -936,6 +936,8 @@ class Relabel(Family):
                         c["optdims"] = rng.sample(range(3), rng.choice([1, 2]))
                 if alg == "tucker_als":
                     self.distinct_ranks(rng, c)
+                if alg == "hosvd" and k % 2:   # given / mixed ranks (0 = automatic for that mode), differing per mode
+                    c["hranks"] = [rng.choice([0, 1, 2, min(3, sh)]) for sh in c["shape"]]
                 out.append(c)
             for k in range(reps4):
                 c = base_case(rng, tier, alg, n=4)
@@ -954,6 +956,8 @@ class Relabel(Family):
                     self.distinct_ranks(rng, c)
                 if alg == "gcp":
                     c["maxiters"] = 5
+                if alg == "hosvd" and k % 2:
+                    c["hranks"] = [rng.choice([0, 1, 2, min(3, sh)]) for sh in c["shape"]]
                 out.append(c)
         return out
 
@@ -967,7 +971,7 @@ class Relabel(Family):
         c["ranks"] = rk
 
     def evaluate(self, cases):
-        out, reqs, slots = [], [], []
+        out, reqs, slots, areqs, aslots = [], [], [], [], []
         for c in cases:
             alg = c["alg"]
             X, init = make_problem(c)
@@ -1001,6 +1005,10 @@ class Relabel(Family):
                     tags.append("fixsigns-odd-component")
             worst, what, at, rejected = 0.0, "", None, None
             fworst, fat, fsign = 0.0, None, None
+            tworst, tat = 0.0, None
+            rk_src = c.get("hranks") if alg == "hosvd" else c.get("ranks")
+            if alg == "hosvd":
+                tags.append("given-ranks" if rk_src else "auto-ranks")
             for p in c["perms"]:
                 inv = [int(x) for x in np.argsort(p)]
                 cyc = "id" if p == sorted(p) else ("involution" if [p[k] for k in p] == sorted(p) else "non-involution")
@@ -1014,7 +1022,7 @@ class Relabel(Family):
                     kwp["optdims"] = [inv[d] for d in kw["optdims"]]
                 r = run_alg(alg, as_data(Xp, rep), cp, init=None if ini is None else [ini[k] for k in p],
                             dimorder=None if dimorder is None else [inv[d] for d in dimorder],
-                            ranks=[c["ranks"][k] for k in p] if "ranks" in c else None, **kwp)
+                            ranks=None if rk_src is None else [rk_src[k] for k in p], **kwp)
                 if r.get("reject"):
                     rejected = (p, r)
                     break
@@ -1025,6 +1033,18 @@ class Relabel(Family):
                 w, wh = compare(base, r)
                 if w > worst:
                     worst, what, at = w, wh, p
+                if alg in ("tucker_als", "hosvd"):
+                    # the arguments of the second run against the model (`gather ranks p`, `qmap p dimorder`)
+                    rk = rk_src
+                    areqs.append({"op": "c18_relabel_args", "ndims": n, "p": list(p),
+                                  "ranks": None if rk is None else list(rk), "dimorder": dimorder})
+                    aslots.append((len(out), p, None if rk is None else [rk[k] for k in p], [inv[d] for d in dimorder]))
+                if alg == "tucker_als":
+                    # `C18_relabel_tucker_run`: factor list relabelled, core permuted
+                    tw = max([rel(r["factors"][k], base["factors"][pk]) for k, pk in enumerate(p)]
+                             + [rel(np.transpose(r["core"], inv), base["core"])])
+                    if tw > tworst:
+                        tworst, tat = tw, p
                 if alg == "cp_als":
                     fw, fabs, comps = factor_mismatch(base, r, p)
                     if fw > fworst:
@@ -1055,7 +1075,14 @@ class Relabel(Family):
                                 f"not the relabelling of the other run's ({fworst:.2e} > {TOL:g}; sign-aligned {fabs:.2e}; "
                                 f"components with sign differences {comps}, with an odd number of negative modes "
                                 f"{sorted(parity_bad)})", impl, None, None, tags)
+            if alg == "tucker_als" and v.status == "ok" and "illcond" not in v.tags and tworst > TOL:
+                v = judge(tworst, "factor list / core", TOL, tags, f"tucker_als modes relabelled by {tat}",
+                          lambda: factor_sensitivity(alg, X, rep, c, init=ini, dimorder=dimorder), impl)
             out.append(v)
+        for (k, p, rk2, do2), m in zip(aslots, drive(areqs)):
+            if k < len(out) and out[k].status == "ok" and (m["ranks"] != rk2 or m["dimorder"] != do2):
+                out[k] = Verdict("violation", f"harness / model disagree on the relabelled arguments for {p}: ranks {rk2} vs "
+                                 f"{m['ranks']}, dimorder {do2} vs {m['dimorder']}", out[k].impl, m, None, out[k].tags)
         for (k, p, pb, pr), m in zip(slots, drive(reqs)):
             if k >= len(out) or out[k].status != "ok":
                 continue
